@@ -8,6 +8,8 @@ import (
 	"hash/fnv"
 	"os"
 	"path/filepath"
+	"runtime"
+	"runtime/debug"
 	"sort"
 	"strconv"
 	"strings"
@@ -43,6 +45,8 @@ import (
 //   ih.v1 0 <lastEnd> <table name.value.offset,…> <name> <wanted> <name hex> <wanted: x<hex>,…>
 //       the index in format v1 (the package's test fixture; indexspec "v1") -> v=<LabelValues> r=<ranges>
 //   indexspec may start with "e;" (the symbol table also holds "") or be "v1"
+//   o.ih.alias <n> <rounds> <indexspec A> <indexspec B>…   in-memory headers do not share memory: build A, ask
+//       everything, build the in-memory headers of the other blocks, ask A again (GOMAXPROCS 1, GC off)
 //   o.ih.meta <n> <indexspec>    label names, symbols, single-value lookups against the full index
 
 func init() {
@@ -525,6 +529,119 @@ func (ix *c11Index) derivedV1(name string, wanted []string) (tbl, nm, wr string,
 	return hlib.Join(ts, ","), strconv.Itoa(nrank[name]), hlib.Join(ws, ","), vrank
 }
 
+// c11Snapshot asks a header everything: names, values, symbols, ranges of every label pair.
+func c11Snapshot(h indexheader.Reader, ix *c11Index) (out string) {
+	defer func() {
+		if p := recover(); p != nil {
+			out = fmt.Sprintf("panic: %v", p)
+		}
+	}()
+	var sb strings.Builder
+	names, err := h.LabelNames()
+	fmt.Fprintf(&sb, "names=%q %v\n", names, err)
+	for _, name := range append([]string{""}, ix.names...) {
+		vs, err := h.LabelValues(name)
+		fmt.Fprintf(&sb, "values(%q)=%q %v\n", c11Abbrev(name), len(vs), err)
+		for _, v := range vs {
+			sb.WriteString(v)
+			sb.WriteByte(0)
+		}
+		rs, err := h.PostingsOffsets(name, ix.values[name]...)
+		fmt.Fprintf(&sb, "ranges=%v %v\n", rs, err)
+	}
+	for i := range ix.symbols {
+		sym, err := h.LookupSymbol(context.Background(), ix.symRefs[i])
+		fmt.Fprintf(&sb, "%d=%q %v\n", i, sym, err)
+	}
+	return sb.String()
+}
+
+// c11Alias: o.ih.alias <n> <rounds> <spec A> <spec B>…   In-memory headers (dir == "") must not share
+// memory: header A is built and asked everything, then in-memory headers of the other blocks are built
+// (plain and lazy readers in turn), then A is asked again.  One processor and no garbage collection
+// during the op, so that anything a pool hands back is handed back reliably.
+func c11Alias(c *hlib.Ctx, tok []string) string {
+	if len(tok) < 5 {
+		return "bad-op"
+	}
+	n, err1 := strconv.Atoi(tok[1])
+	rounds, err2 := strconv.Atoi(tok[2])
+	if err1 != nil || err2 != nil || n < 1 || rounds < 1 || rounds > 8 {
+		return "bad-op"
+	}
+	var ixs []*c11Index
+	for _, spec := range tok[3:] {
+		ix, err := buildC11Index(spec)
+		if err != nil {
+			return "bad-op"
+		}
+		ixs = append(ixs, ix)
+	}
+	prevProcs := runtime.GOMAXPROCS(1)
+	prevGC := debug.SetGCPercent(-1)
+	defer func() {
+		debug.SetGCPercent(prevGC)
+		runtime.GOMAXPROCS(prevProcs)
+	}()
+	ctx := context.Background()
+	build := func(ix *c11Index, lazy bool) (indexheader.Reader, error) {
+		if lazy {
+			return indexheader.NewLazyBinaryReader(ctx, log.NewNopLogger(), ix.bkt, "", ix.id, n,
+				indexheader.NewLazyBinaryReaderMetrics(nil), indexheader.NewBinaryReaderMetrics(nil), nil, false)
+		}
+		return indexheader.NewBinaryReader(ctx, log.NewNopLogger(), ix.bkt, "", ix.id, n, indexheader.NewBinaryReaderMetrics(nil))
+	}
+	changed := 0
+	for round := 0; round < rounds; round++ {
+		a := ixs[0]
+		ha, err := build(a, round%2 == 1)
+		if err != nil {
+			return "err:" + err.Error()
+		}
+		before := c11Snapshot(ha, a)
+		var others []indexheader.Reader
+		for k, ix := range ixs[1:] {
+			hb, err := build(ix, (round+k)%2 == 0)
+			if err != nil {
+				return "err:" + err.Error()
+			}
+			_ = c11Snapshot(hb, ix) // (a lazy reader builds its header on the first call)
+			others = append(others, hb)
+		}
+		after := c11Snapshot(ha, a)
+		if after != before {
+			changed++
+			i := 0
+			for i < len(before) && i < len(after) && before[i] == after[i] {
+				i++
+			}
+			from := i - 40
+			if from < 0 {
+				from = 0
+			}
+			c.Violation("in-memory-header-changed", fmt.Sprintf("round %d: header A answers differently after %d other in-memory headers were built; first difference: before %q, after %q",
+				round, len(others), short(before[from:]), short(after[from:])))
+		}
+		// … and A still agrees with its full index (same checks as o.ih.meta, on the re-queried header)
+		if names, err := ha.LabelNames(); err != nil || strings.Join(names, "\x00") != strings.Join(a.names, "\x00") {
+			c.Violation("label-names-mismatch", fmt.Sprintf("after other headers were built: header %d names, index %d (%v)", len(names), len(a.names), err))
+		}
+		for _, name := range a.names {
+			rs, err := ha.PostingsOffsets(name, a.values[name]...)
+			if err != nil {
+				c.Violation("lookup-error", "after other headers were built: "+err.Error())
+				continue
+			}
+			c11CheckRanges(c, a, name, a.values[name], rs, n)
+		}
+		for _, h := range others {
+			_ = h.Close()
+		}
+		_ = ha.Close()
+	}
+	return fmt.Sprintf("rounds=%d changed=%d", rounds, changed)
+}
+
 // c11Hung: index specs on which a call into the real header did not return.
 var c11Hung = map[string]bool{}
 
@@ -540,6 +657,8 @@ func execC11(c *hlib.Ctx, tok []string) string {
 			spec = tok[3]
 		case tok[0] == "o.ih.meta" && len(tok) == 3:
 			spec = tok[2]
+		case tok[0] == "o.ih.alias" && len(tok) >= 5:
+			spec = tok[3]
 		case tok[0] == "ih.v1":
 			spec = "v1"
 		}
@@ -821,6 +940,8 @@ func execC11Op(c *hlib.Ctx, tok []string) string {
 			c.Violation("lookup-error", err.Error())
 		}
 		return fmt.Sprintf("v=%s r=%s", lvs, rs)
+	case "o.ih.alias":
+		return c11Alias(c, tok)
 	case "o.ih.meta":
 		if len(tok) != 3 {
 			return "bad-op"
@@ -1196,6 +1317,37 @@ func genWanted(c *hlib.Ctx, vs []string) []string {
 	return w
 }
 
+// c11VarySpec: another block with the same layout as spec — every value keeps its length, its last byte
+// is changed (k-th variant), so that the two index-headers have the same size and different bytes.
+func c11VarySpec(spec string, k int) string {
+	m, order, ok := parseIndexSpec(spec)
+	if !ok {
+		return spec
+	}
+	var parts []string
+	for _, name := range order {
+		seen := map[string]bool{}
+		var hv []string
+		for _, v := range m[name] {
+			b := []byte(v)
+			b[len(b)-1] = "qzjxkwQZJX"[(int(b[len(b)-1])+k)%10]
+			if k == 2 && len(b) > 1 {
+				b = b[:len(b)-1] // the third variant is a little smaller
+			}
+			if !seen[string(b)] {
+				seen[string(b)] = true
+				hv = append(hv, c11Enc(string(b)))
+			}
+		}
+		parts = append(parts, c11Enc(name)+"="+strings.Join(hv, ","))
+	}
+	out := strings.Join(parts, ";")
+	if strings.HasPrefix(spec, "e;") {
+		out = "e;" + out
+	}
+	return out
+}
+
 func genC11(c *hlib.Ctx) {
 	r := c.R
 	// one index with more symbols than the header's symbol cache has slots (meta checks only)
@@ -1224,6 +1376,20 @@ func genC11(c *hlib.Ctx) {
 			continue
 		}
 		c11GenNamesSyms(c, ix, spec, n)
+		if it%3 == 0 || it < 6 {
+			// other blocks of the same shape (same lengths, other bytes: same header size), and one smaller
+			var others []string
+			for k := 0; k < r.Range(1, 3); k++ {
+				o := c11VarySpec(spec, k)
+				if _, err := buildC11Index(o); err == nil {
+					others = append(others, o)
+				}
+			}
+			if len(others) > 0 {
+				c.Count(fmt.Sprintf("alias:other-headers=%d", len(others)))
+				c.Do(fmt.Sprintf("o.ih.alias %d %d %s %s", n, r.Range(2, 4), spec, strings.Join(others, " ")), true)
+			}
+		}
 		// several sampling rates on the same index
 		rates := []int{n, r.Range(1, 64), []int{1, 2, 3, 5, 32}[r.Intn(5)]}
 		for _, rate := range rates {
